@@ -98,6 +98,7 @@ def run_zkif(k, prog):
     def check_header(tag, tab):
         iv = slot(tab, tables, "CircuitHeader", "instance_variables", "offset")
         ids, vals, raw = read_variables(iv, tables, BL)
+        decoded["instance"] = dict(zip(ids, vals))
         obs.append(("%s header: instance variable ids are 1..n" % tag, ids == list(range(1, n + 1))))
         obs.append(("%s header: one value per instance variable" % tag, len(vals) == n))
         for i, (dec, v) in enumerate(zip(vals, pub)):
@@ -110,8 +111,11 @@ def run_zkif(k, prog):
                     len(fm) == BL and all(type(b) is int for b in fm) and felts(fm, BL) == [P - 1]))
         return raw
 
+    decoded = {}
+
     def check_constraints(tag, tab):
         cv = vec_items(slot(tab, tables, "ConstraintSystem", "constraints", "offset"), "offset", 4)
+        decoded[tag] = []
         obs.append(("%s constraints: count" % tag, len(cv) == len(cons)))
         symbolic_leaf = False
         for ci, (ct, tr) in enumerate(zip(cv, cons)):
@@ -127,11 +131,13 @@ def run_zkif(k, prog):
                         obs.append(("%s constraint %d %s coefficient of variable %d" % (tag, ci, fname[-1], w), ("eq", cf, want[w] % P)))
                         obs.append(("%s constraint %d %s coefficient of variable %d canonical" % (tag, ci, fname[-1], w), cf < P))
                 symbolic_leaf = symbolic_leaf or any(type(b) is not int for b in raw)
+                decoded[tag].append((ci, list(zip(ids, vals))))
         return symbolic_leaf
 
     def check_witness(tag, tab):
         av = slot(tab, tables, "Witness", "assigned_variables", "offset")
         ids, vals, raw = read_variables(av, tables, BL)
+        decoded["witness"] = dict(zip(ids, vals))
         obs.append(("%s witness: assigns exactly the private variables n+1..n+m" % tag, ids == list(range(n + 1, n + m + 1))))
         obs.append(("%s witness: one value per private variable" % tag, len(vals) == m))
         for i, (dec, v) in enumerate(zip(vals, priv)):
@@ -157,6 +163,19 @@ def run_zkif(k, prog):
                         obs.append(("circuit.zkif: nothing in the constraint message depends on a run-time value", not sym))
                 elif t == MT["Witness"]:
                     check_witness(tag, tab)
+        # the decoded assignment satisfies the decoded constraints (stated on concrete runs only: translator validation,
+        # evaluation points, replay -- the products of decoded elements are non-linear for the solver)
+        assign = {0: 1}
+        assign.update(decoded.get("instance", {}))
+        assign.update(decoded.get("witness", {}))
+        if all(type(v) is int for v in assign.values()) and "computation" in decoded:
+            lcs = {}
+            for ci, terms in decoded["computation"]:
+                lcs.setdefault(ci, []).append(terms)
+            for ci, parts in lcs.items():
+                if len(parts) == 3 and all(w in assign for part in parts for w, _ in part):
+                    a, b, c = [sum(cf * assign[w] for w, cf in part) for part in parts]
+                    obs.append(("decoded assignment satisfies decoded constraint %d" % ci, ("cong", a * b, c)))
     except (ValueError, KeyError, AttributeError) as ex:
         obs.append(("recorded tree is well formed (%s: %s)" % (type(ex).__name__, ex), False))
     return obs
